@@ -726,9 +726,9 @@ class DFA:
             return True
         return False
 
-    def dfs(self):
+    def dfs(self, extra_roots=()):
         """
-        Construct a dfs-order traversal of the DFA
+        Construct a dfs-order traversal of the DFA (continuing from each of extra_roots afterwards)
         """
 
         visited = set()
@@ -759,6 +759,8 @@ class DFA:
                     yield from aux(t.target)
 
         yield from aux(self.starting_state)
+        for root in extra_roots:
+            yield from aux(root)
 
     def error_handling_transitions(self, include_states=False):
         """
@@ -5047,7 +5049,8 @@ class DfaCompileCtx:
     def _optimize_remove_inaccessible(self):
         if not ProgramData.do(ProgramFlag.REMOVE_INACCESIBLE_STATES):
             return 0
-        accessible = set(self.dfa.dfs())
+        # states that only the start actions can jump to (out-of-space handlers of leading appends) are reachable too
+        accessible = set(self.dfa.dfs(extra_roots=[tgt for action in self.start_actions for tgt in action.get_target_override_targets()]))
         mod = 0
         for i in self.dfa.states.copy():
             if i not in accessible:
